@@ -148,7 +148,7 @@ def run(tier, seed):
                                     theorem=pg['theorems'], problems=pg['problems']), False))
     ncases = 40 if tier == 'quick' else 500
     cases = [seed * 100000 + 5000 + i for i in range(ncases)]
-    for r in core.run_cases(run_case, cases):
+    for r in core.run_cases(run_case, core.with_corpus(PID, cases)):
         rep.merge(r)
     rep.obligation('correspondence: Writers.Colander.colander = output directory of Colander.strain (binary files byte for byte, '
                    'level headers token for token, global header with floats by value)',
